@@ -220,6 +220,77 @@ Definition check_completions (fin : list (list (N * Z))) (out : list ojob) (queu
   cc_loop (S (length queued)) fin (q_init out queued).
 
 (* ------------------------------------------------------------------------------------------ *)
+(* (d) the two levels together: a submission as a sequence of detection events                  *)
+Record sys := {
+  s_cluster : list cjob;             (* the submitter's job list (Cluster.job_status.jobs) *)
+  s_queued : list (N * qjob);        (* (batch id, job queued on that batch's node) *)
+  s_running : list (N * N);          (* (batch id, name): started, result not yet recorded *)
+  s_rows : list row;                 (* every result row written so far, by anyone *)
+  s_launched : list N                (* commands started *)
+}.
+
+Inductive event :=
+| EvSubmitter (feeds : list (list row))       (* one _update_completed_jobs call; feeds: portions of written rows handed to it *)
+| EvBatch (b : N) (names : list N)            (* the waiting jobs among [names] are handed to node b with their remaining blockers *)
+| EvStart (b : N) (n : N)                     (* node b starts queued job n, which has no blockers left *)
+| EvNode (b : N) (fin : list (list (N * Z))). (* one _check_completions call on node b; fin: observed process ends *)
+
+Definition sys_init (sc : scenario) : sys :=
+  {| s_cluster := map (fun j => {| c_name := jname j; c_blocked := jdeps j; c_flag := jflag j; c_state := NOT_SUBMITTED |}) sc;
+     s_queued := []; s_running := []; s_rows := []; s_launched := [] |}.
+
+Definition is_waiting (j : cjob) : bool := jstate_eqb (c_state j) NOT_SUBMITTED.
+Definition batched (names : list N) (j : cjob) : bool := is_waiting j && memN (c_name j) names.
+Definition on_node (b : N) {A} (p : N * A) : bool := N.eqb (fst p) b.
+Definition startable (b n : N) (p : N * qjob) : bool :=
+  N.eqb (fst p) b && N.eqb (q_name (snd p)) n && match q_blocking (snd p) with [] => true | _ => false end.
+Definition rc_matches (sc : scenario) (p : N * Z) : bool :=
+  match find_job sc (fst p) with Some j => Z.eqb (jrc j) (snd p) | None => false end.
+Definition running_names (o : list ojob) : list N :=
+  flat_map (fun x => match x with ORunning n => [n] | OCanceled _ => [] end) o.
+
+Definition sys_step (sc : scenario) (s : sys) (ev : event) : option sys :=
+  match ev with
+  | EvSubmitter feeds =>
+    if forallb (fun r => existsb (row_eqb r) (s_rows s)) (concat feeds) then
+      match update_completed feeds (s_cluster s) with
+      | Some u => Some {| s_cluster := u_jobs u; s_queued := s_queued s; s_running := s_running s;
+                          s_rows := s_rows s ++ u_rows u; s_launched := s_launched s |}
+      | None => None
+      end
+    else None
+  | EvBatch b names =>
+    Some {| s_cluster := map (fun j => if batched names j
+                                       then {| c_name := c_name j; c_blocked := []; c_flag := c_flag j; c_state := SUBMITTED |}
+                                       else j) (s_cluster s);
+            s_queued := s_queued s ++ map (fun j => (b, {| q_name := c_name j; q_blocking := c_blocked j; q_flag := c_flag j |}))
+                                          (filter (batched names) (s_cluster s));
+            s_running := s_running s; s_rows := s_rows s; s_launched := s_launched s |}
+  | EvStart b n =>
+    if existsb (startable b n) (s_queued s) then
+      Some {| s_cluster := s_cluster s; s_queued := filter (fun p => negb (startable b n p)) (s_queued s);
+              s_running := s_running s ++ [(b, n)]; s_rows := s_rows s; s_launched := s_launched s ++ [n] |}
+    else None
+  | EvNode b fin =>
+    if forallb (rc_matches sc) (concat fin) then
+      match check_completions fin (map (fun p => ORunning (snd p)) (filter (on_node b) (s_running s)))
+                              (map snd (filter (on_node b) (s_queued s))) with
+      | Some q => Some {| s_cluster := s_cluster s;
+                          s_queued := filter (fun p => negb (on_node b p)) (s_queued s) ++ map (pair b) (qs_queued q);
+                          s_running := filter (fun p => negb (on_node b p)) (s_running s) ++ map (pair b) (running_names (qs_out q));
+                          s_rows := s_rows s ++ qs_rows q; s_launched := s_launched s |}
+      | None => None
+      end
+    else None
+  end.
+
+Fixpoint sys_run (sc : scenario) (s : sys) (evs : list event) : option sys :=
+  match evs with
+  | [] => Some s
+  | e :: r => match sys_step sc s e with Some s' => sys_run sc s' r | None => None end
+  end.
+
+(* ------------------------------------------------------------------------------------------ *)
 (* boolean equalities for the correspondence                                                    *)
 Definition seteqN (a b : list N) : bool := subsetN a b && subsetN b a.
 Definition cjob_eqb (a b : cjob) : bool :=
